@@ -131,6 +131,8 @@ pub fn gen_init(rng: &mut Rng) -> Init {
 fn dt(rng: &mut Rng) -> (i128, i128) {
     // a time source whose monotonic reading steps back (the code has branches for it: a mock or a broken clock)
     if rng.chance(1, 20) { return (1_000_000, -2 * S); }
+    // a wall clock far beyond anything a calendar library prints (the clock jumps there and stays)
+    if rng.chance(1, 40) { return (8_300_000_000_000 * S, 5 * S); }
     match rng.below(6) {
         0 => (0, 0),
         1 => (250_000_000, 250_000_000),
@@ -366,12 +368,30 @@ pub fn run_history_opt(rng: &mut Rng, init: Init, nunits: usize, oneshot: bool, 
     let fin0 = match init.committed.get(&b"update_finish_time"[..]) { Some(SVal::Int(i)) => Some(*i as i128 * 1000), _ => None };
     let mut should = fin0.is_some() && matches!(init.committed.get(&b"target_version"[..]), Some(SVal::Str(s)) if s == init.osver.as_bytes());
 
+    // a panic while the machine is being built (it loads and logs its context) is a case of its own: the unit that would
+    // have run, answered `panic`
+    let built = std::panic::catch_unwind(std::panic::AssertUnwindSafe(|| {
+        if oneshot { (None, Box::pin(futures::executor::block_on(builder.oneshot_check())) as std::pin::Pin<Box<dyn futures::Stream<Item = omaha_client::state_machine::StateMachineEvent>>>) }
+        else { let (h, s) = futures::executor::block_on(builder.start()); (Some(h), Box::pin(s) as std::pin::Pin<Box<dyn futures::Stream<Item = omaha_client::state_machine::StateMachineEvent>>>) }
+    }));
+    let (handle0, stream0) = match built {
+        Ok(x) => x,
+        Err(_) => {
+            let (env0, path0) = gen_unit(rng, &init, &init.presets, oneshot);
+            let input = format!("mode={} {} apps={} {} {} clk={},{} rs={}:{}:{} {}", if oneshot { "oneshot" } else { "start" }, init_tokens(&init), apps_tok(&init.presets),
+                "lut=- lct=- nxt=- poll=- fails=0 proxied=0", store_tok(&BTreeMap::new(), &init.committed), init.wall, init.mono,
+                start_mono, fin0.map(|f| f.to_string()).unwrap_or("-".into()), should as u8, unit_tokens(&env0, &[], &[]));
+            let cases = vec![UnitCase { input, output: "panic".into(), class: format!("panic-at-build/{}", path0) }];
+            let (committed, wall) = { let h = hub.lock().unwrap(); (h.committed.clone(), h.wall) };
+            return (cases, Carry { init, committed, wall, exchanges: vec![] });
+        }
+    };
     let mut runner = if oneshot {
-        let stream = futures::executor::block_on(builder.oneshot_check());
-        Runner { hub: hub.clone(), stream: Box::pin(stream), handle: None, ctls: vec![], replies: vec![], flag, ended: false, polls: 0, stalled_wakeups: 0, contend: None, storage: None, app_set: None, contended: 0, crash_at: None, shared: None }
+        let stream = stream0;
+        Runner { hub: hub.clone(), stream, handle: None, ctls: vec![], replies: vec![], flag, ended: false, polls: 0, stalled_wakeups: 0, contend: None, storage: None, app_set: None, contended: 0, crash_at: None, shared: None }
     } else {
-        let (handle, stream) = futures::executor::block_on(builder.start());
-        Runner { hub: hub.clone(), stream: Box::pin(stream), handle: Some(handle), ctls: vec![], replies: vec![], flag, ended: false, polls: 0, stalled_wakeups: 0, contend: None, storage: None, app_set: None, contended: 0, crash_at: None, shared: None }
+        let (handle, stream) = (handle0.unwrap(), stream0);
+        Runner { hub: hub.clone(), stream, handle: Some(handle), ctls: vec![], replies: vec![], flag, ended: false, polls: 0, stalled_wakeups: 0, contend: None, storage: None, app_set: None, contended: 0, crash_at: None, shared: None }
     };
 
     runner.crash_at = crash_at;
@@ -434,7 +454,7 @@ pub fn run_history_opt(rng: &mut Rng, init: Init, nunits: usize, oneshot: bool, 
     // first time, and lets go afterwards; the machine has to wait for the lock, not work around it
     if rng.chance(1, 4) {
         let guard = app_set.try_lock();
-        if guard.is_some() { let n = 1 + rng.below(2); for _ in 0..n { while runner.poll_stream() {} } }
+        if guard.is_some() { let n = 1 + rng.below(2); for _ in 0..n { let _ = std::panic::catch_unwind(std::panic::AssertUnwindSafe(|| { while runner.poll_stream() {} })); } }
         drop(guard);
         if let Some(e) = envs.get_mut(0) { e.1.push_str("contended-start/"); }
     }
@@ -452,7 +472,7 @@ pub fn run_history_opt(rng: &mut Rng, init: Init, nunits: usize, oneshot: bool, 
         let start = snap_before.trace_len;
         let mut rsteps_done: Vec<(Step, (i128, i128))> = vec![];
         let end_kind = loop {
-            let r = runner.run_unit();
+            let r = match std::panic::catch_unwind(std::panic::AssertUnwindSafe(|| runner.run_unit())) { Ok(r) => r, Err(_) => break UnitEnd::Panicked };
             if r == UnitEnd::Crashed { break r; }
             if r != UnitEnd::Stalled { break r; }
             let in_reboot = hub.lock().unwrap().reboot_phase;
@@ -508,11 +528,13 @@ pub fn run_history_opt(rng: &mut Rng, init: Init, nunits: usize, oneshot: bool, 
         snap_before = snap_after;
         if waited { should = false; }
         let last = done.last().unwrap();
-        if last.end_kind == UnitEnd::Stalled || last.end_kind == UnitEnd::StreamEnded { break; }
+        if last.end_kind == UnitEnd::Stalled || last.end_kind == UnitEnd::StreamEnded || last.end_kind == UnitEnd::Panicked { break; }
     }
+    let mut peek_panicked = false;
     // a final peek so that the last unit's end-of-unit context is observable
-    if crash_at.is_none() && !oneshot && !runner.ended && done.last().map(|d| d.end_kind == UnitEnd::Idle || d.end_kind == UnitEnd::Negative).unwrap_or(false) {
-        runner.run_unit();
+    if crash_at.is_none() && !oneshot && !runner.ended && done.last().map(|d| d.end_kind != UnitEnd::Panicked).unwrap_or(true) && done.last().map(|d| d.end_kind == UnitEnd::Idle || d.end_kind == UnitEnd::Negative).unwrap_or(false) {
+        // (a panic here belongs to the next iteration of the loop: it is reported as a case without a scenario)
+        if std::panic::catch_unwind(std::panic::AssertUnwindSafe(|| { runner.run_unit(); })).is_err() { peek_panicked = true; }
     }
     let all_replies = runner.replies.clone();
     let trace = hub.lock().unwrap().trace.clone();
@@ -540,14 +562,17 @@ pub fn run_history_opt(rng: &mut Rng, init: Init, nunits: usize, oneshot: bool, 
                 None => "?".into(),
             }
         };
-        let kind = match d.end_kind { UnitEnd::Idle | UnitEnd::Negative => "completed", UnitEnd::StreamEnded => if oneshot { "completed" } else { "ended" }, UnitEnd::Stalled | UnitEnd::Crashed => "stalled" };
+        let kind = match d.end_kind { UnitEnd::Idle | UnitEnd::Negative => "completed", UnitEnd::StreamEnded => if oneshot { "completed" } else { "ended" }, UnitEnd::Stalled | UnitEnd::Crashed | UnitEnd::Panicked => "stalled" };
         if lines.is_empty() && d.end_kind == UnitEnd::StreamEnded && !oneshot {
             out = vec!["Z notstarted".into()];
         } else {
             out.push(format!("Z {} {} apps={} {} clk={},{}", kind, end_ctx, apps_tok(&d.apps_after), store_tok(&d.snap_after.pending, &d.snap_after.committed), d.snap_after.wall, d.snap_after.mono));
         }
-        cases.push(UnitCase { input, output: out.join("\t"), class: format!("{}/{}/{:?}", mode, d.path, d.end_kind) });
+        // a panic inside the unit: the unit's scenario is the failing input, the answer is `panic`
+        let output = if d.end_kind == UnitEnd::Panicked { "panic".to_string() } else { out.join("\t") };
+        cases.push(UnitCase { input, output, class: format!("{}/{}/{:?}", mode, d.path, d.end_kind) });
     }
+    if peek_panicked { cases.push(UnitCase { input: "mode=panic where=iteration-after-the-last-unit".into(), output: "panic".into(), class: "panic-in-peek".into() }); }
     drop(runner);
     let (committed, wall, exchanges) = { let mut h = hub.lock().unwrap(); (h.committed.clone(), h.wall, h.mock.as_mut().map(|m| std::mem::take(&mut m.exchanges)).unwrap_or_default()) };
     (cases, Carry { init, committed, wall, exchanges })
